@@ -93,6 +93,9 @@ class Scn:
                 self.constr[B_I] = [-0.2, 1.3]
         elif sc["constr"] == "tied":
             self.constr[B_R] = [0.6, 0.5]
+        elif sc["constr"] == "head_and_tied":  # two constraints that resolve to the same variable
+            self.constr[A_R] = [0.9, 0.6]
+            self.constr[B_R] = [0.6, 0.5]
         if self.constr:
             con["gauss_constr"] = {k: list(v) for k, v in self.constr.items()}
         rng_ = {
@@ -430,7 +433,7 @@ def choose(scenarios, rng, budget, quick):
         return r + (1 if (s["batch"] == "ragged") == (nrag < (4 if quick else 25)) else 0)
 
     need = [("bounds", b) for b in ("coupling_two", "coupling_lower", "coupling_upper", "mass_two", "width_lower", "mixed")]
-    need += [("constr", c) for c in ("head", "two_heads", "tied")] + [("floating", f) for f in ("mass", "mass_width")] + [("share", "tie"), ("batch", "ragged")]
+    need += [("constr", c) for c in ("head", "two_heads", "tied", "head_and_tied")] + [("floating", f) for f in ("mass", "mass_width")] + [("share", "tie"), ("batch", "ragged")]
     chosen = []
     # the slow kinds: few scenarios, one batch (every further batch size is another trace)
     for k, (nq, nt) in SLOW.items():
@@ -463,6 +466,10 @@ def choose(scenarios, rng, budget, quick):
         cand = sorted([s for s in res2 if s["kind"] == k and s["batch"] == "ragged" and s["floating"] == "couplings" and s not in chosen],
                       key=lambda s: (-richness(s), json.dumps(s, sort_keys=True)))
         chosen += cand[:1]
+    # always: two Gaussian constraints that resolve to one variable (head and tied name of a tie group)
+    cand = sorted([s for s in pools.get("default", []) if s["constr"] == "head_and_tied" and s["shape"] == "columns" and s["batch"] == "single" and s["floating"] == "couplings" and s not in chosen],
+                  key=lambda s: (richness(s), json.dumps(s, sort_keys=True)))
+    chosen += cand[:1]
     for k in pools:
         pools[k] = [s for s in pools[k] if s["shape"] == "columns" or s in chosen]
     # kinds not yet present come first in the rotation
